@@ -47,6 +47,11 @@ func TestC05Runs(t *testing.T) {
 		oneRun(o, r, dir, 2000+rep, "file", "max-duration", "block-until-after-end")
 		oneRun(o, r, dir, 2100+rep, "file", "trigger-duration", "sleep-long")
 	}
+	// a config file whose stages are far longer than the run needs: once the limit is reached (or
+	// the run is cancelled, or max-duration elapses, after that) nothing is left to wait for
+	for rep := 0; rep < kit.N(3, 12); rep++ {
+		fileLongStage(o, r, dir, 3000+rep, rep%3)
+	}
 	n := kit.N(24, 240)
 	for i := 0; i < n; i++ {
 		mode := runkit.Modes[i%len(runkit.Modes)]
@@ -61,6 +66,76 @@ func TestC05Runs(t *testing.T) {
 		}
 		oneRun(o, r, dir, i, mode, ending, body)
 	}
+}
+
+// fileLongStage: one or two stages of several seconds, instant bodies and a small limit. variant 0:
+// the limit ends the run; 1: max-duration (500 ms) comes after the limit was reached; 2: the run
+// is cancelled after the limit was reached. In every variant the run returns as soon as the
+// earliest of them has happened and the (instant) iterations are over - not at the stage's end.
+func fileLongStage(o *kit.Out, r *kit.Rand, dir string, idx, variant int) {
+	var startedN, finishedN atomic.Int64
+	t0 := time.Now()
+	var lastFinish atomic.Int64
+	scenario := func(*f1testing.T) f1testing.RunFn {
+		return func(*f1testing.T) {
+			startedN.Add(1)
+			time.Sleep(time.Millisecond)
+			finishedN.Add(1)
+			lastFinish.Store(int64(time.Since(t0)))
+		}
+	}
+	limit := r.Range(3, 20)
+	maxDur := 6 * time.Second
+	if variant == 1 {
+		maxDur = 500 * time.Millisecond
+	}
+	mode := kit.Pick(r, "constant", "constant", "users", "staged")
+	stage := "    mode: constant\n    rate: 5/10ms\n"
+	switch mode {
+	case "users":
+		stage = "    mode: users\n    concurrency: 2\n"
+	case "staged":
+		stage = "    mode: staged\n    stages: 0s:5,4s:5\n    iteration-frequency: 10ms\n"
+	}
+	y := "scenario: verifscenario\ndefault:\n  jitter: 0\n  distribution: none\n  concurrency: 2\n" +
+		"limits:\n  max-duration: " + maxDur.String() + "\n  concurrency: 4\n  max-iterations: " + kit.I(limit) + "\n  ignore-dropped: true\nstages:\n" +
+		"  - duration: 4s\n" + stage
+	if r.Bool() {
+		y += "  - duration: 3s\n    mode: constant\n    rate: 1/10ms\n"
+	}
+	file := filepath.Join(dir, fmt.Sprintf("c05_long_%d.yaml", idx))
+	_ = os.WriteFile(file, []byte(y), 0o600)
+	ctx, cancel := context.WithCancel(context.Background())
+	defer cancel()
+	if variant == 2 {
+		go func() { time.Sleep(400 * time.Millisecond); cancel() }()
+	}
+	before := goleak.IgnoreCurrent()
+	out, hung, dump := runkit.DoTimeout(runkit.Config{Mode: "file", FileArg: file, Scenario: scenario, Ctx: ctx, Opts: options.RunOptions{}}, 30*time.Second)
+	returnedAt := time.Since(t0)
+	if hung {
+		o.Fail("run-did-not-return", fmt.Sprintf("Run.Do did not return within 30s (file with a 4s %s stage, limit %d, variant %d): %s", mode, limit, variant, dump[:min(len(dump), 2500)]))
+		return
+	}
+	if out.Err != nil || out.Result == nil {
+		o.Fail("run-error", fmt.Sprintf("Run.Do failed (file, long stage): %v", out.Err))
+		return
+	}
+	slow := int64(0)
+	// the limit is reached within the first few ticks; everything after that is waiting for nothing
+	bound := time.Duration(lastFinish.Load()) + 1200*time.Millisecond
+	if startedN.Load() >= limit && returnedAt > bound {
+		slow = 1
+		o.Fail("run-outlives-its-ending", fmt.Sprintf("config file with a 4s %s stage and max-iterations %d (variant %d: 0 limit only, 1 max-duration 500ms, 2 cancelled at 400ms): the last of the %d iterations finished %s after the start, Run.Do returned after %s",
+			mode, limit, variant, startedN.Load(), time.Duration(lastFinish.Load()), returnedAt))
+	}
+	leaked := int64(0)
+	if err := goleak.Find(before); err != nil {
+		leaked = 1
+	}
+	o.Count("mode", "file, long stage")
+	o.Count("ending", []string{"limit", "limit then max-duration", "limit then cancel"}[variant])
+	o.Case("c05_ok", []string{"0", kit.I(startedN.Load() - finishedN.Load()), "0", kit.I(slow), kit.I(leaked), kit.Str("file-long-stage/" + mode)}, "T", "run", "file", "long-stage", "nt")
 }
 
 func oneRun(o *kit.Out, r *kit.Rand, dir string, idx int, mode, ending, body string) {
